@@ -18,7 +18,7 @@ ASSUMPTIONS = [
     "socket.getaddrinfo is replaced by a deterministic stand-in (numeric ports, one or two addresses per host) that the model mirrors; resolve_wsgi_app is replaced by a marker; socket objects are unbound real sockets or a socket.socket subclass with settable family/type",
     "CPython's getopt.getopt (3.12, long options only) and int()/str.splitlines()/str.split()/str.strip() are modelled by hand and compared on every run; int() of non-ASCII decimal digits and str.lower() outside latin-1 are not modelled (the harness checks that no such character lower-cases onto a letter used by truthy or KNOWN_PROXY_HEADERS)",
     "platform: not Windows (the WIN branch of the listen loop is not modelled); HAS_IPV6 and hasattr(socket, 'AF_UNIX') are read from the running interpreter and passed to the model",
-    "documentation is compared on option NAMES (and on flag-vs-value form in runner.HELP), not on documented defaults; `sockets` is exempt from the command-line list",
+    "documentation is compared on option NAMES (and on flag-vs-value form in runner.HELP); of the documented defaults only those the model reads are fixed (host 0.0.0.0, port 8080, ipv4/ipv6 on, trusted_proxy_count 1, implicit x-forwarded-proto); `sockets` is exempt from the command-line list",
     "proxy trust options = trusted_proxy_count and trusted_proxy_headers (docs/arguments.rst additionally calls clear_untrusted_proxy_headers without trusted_proxy an error; the code and the property text do not)",
 ]
 
